@@ -247,3 +247,80 @@ func TestC14Cli(t *testing.T) {
 		},
 	})
 }
+
+// ---------------------------------------------------------------------------------------
+// long records: a tree whose text is longer than 64 KiB / 1 MiB / 4 MiB (the usual sizes of line
+// and token buffers) in the middle of a stream; `gotree brlen cut` must print the groups of every
+// tree of the stream, the long one and those after it included.
+
+type LongCase struct {
+	Tips    int `json:"tips"`
+	NameLen int `json:"name_len"`
+}
+
+func longTree(c LongCase) *ref.Node {
+	nodes := []*ref.Node{}
+	for i := 0; i < c.Tips; i++ {
+		name := fmt.Sprintf("taxon_%d_", i)
+		name += strings.Repeat("ACCESSION", c.NameLen/9+1)[:c.NameLen]
+		l := 0.01 * float64(1+i%7)
+		if i%5 == 0 {
+			l = 1.5 // a long tip branch: the tip is alone in its group
+		}
+		nodes = append(nodes, &ref.Node{Name: name, Len: ref.F(l)})
+	}
+	for k := 0; len(nodes) > 3; k++ {
+		d := 2 + k%2
+		l := 0.02
+		if k%4 == 0 {
+			l = 0.75
+		}
+		in := &ref.Node{Len: ref.F(l), Ch: append([]*ref.Node(nil), nodes[:d]...)}
+		nodes = append(nodes[d:], in)
+	}
+	return &ref.Node{Ch: nodes}
+}
+
+func checkLong(c LongCase) error {
+	small1, _ := ref.Parse("((a:0.1,b:0.1):0.1,c:1,d:0.1);")
+	small2, _ := ref.Parse("((e:0.1,f:2):0.1,(g:0.2,h:0.1):0.9,i:0.1);")
+	big := longTree(c)
+	sc := StreamCase{Cmd: "cut", Trees: []*ref.Node{small1, big, small2}, Thr: 0.5, Broken: -1, ToFile: c.Tips%2 == 0}
+	err := checkStream(sc)
+	if err != nil {
+		msg := err.Error()
+		if len(msg) > 700 {
+			msg = msg[:700] + "..."
+		}
+		return fmt.Errorf("stream of 3 trees, the second one with %d tips and a text of %d bytes: %s", c.Tips, len(ref.Write(big)), msg)
+	}
+	return nil
+}
+
+func TestC14CliLongRecords(t *testing.T) {
+	r := h.NewRecorder(t, "C14", "cli-long-records", "`gotree brlen cut -l 0.5` on a stream of three trees whose second one has a text of about 70 KB, 1.1 MB (quick) and 4.5 MB, 17 MB (thorough): 1500-30000 tips with names of 30-550 bytes, long and short branches mixed; the groups of all three trees must be printed and equal the union-find groups of the reference model, exit status 0; every case is non-trivial")
+	var rc LongCase
+	if replaying, mine := r.ReplayCase(&rc); replaying {
+		if mine {
+			r.Replayed(checkLong(rc))
+		}
+		return
+	}
+	cases := []LongCase{{1500, 30}, {24000, 30}, {2001, 540}}
+	if h.Thorough() {
+		cases = append(cases, LongCase{30000, 140}, LongCase{30001, 550})
+	}
+	for k, c := range cases {
+		if k%h.NShards() != h.Shard() {
+			continue
+		}
+		var err error
+		if gerr := r.Guard(c, 300e9, func() error { err = checkLong(c); return nil }); gerr != nil {
+			err = gerr
+		}
+		r.Eval(c, true, fmt.Sprintf("tips=%d", c.Tips))
+		if err != nil {
+			r.Fail(c, "%v", err)
+		}
+	}
+}
